@@ -681,6 +681,12 @@ func (x *Exec) enter(st *State, from, to *ssa.BasicBlock) []Outcome {
 }
 
 func (x *Exec) havocLoop(st *State, fr *Frame, li *loopInfo) {
+	// the allocation counter first: values created below are bounded by the new one
+	if li.allocates {
+		before := st.alloc
+		st.alloc = x.fresh("alloc", SInt)
+		st.assume(Le(before, st.alloc))
+	}
 	for _, a := range li.modAllocs {
 		c := fr.allocCell[a]
 		if c == nil {
@@ -694,10 +700,8 @@ func (x *Exec) havocLoop(st *State, fr *Frame, li *loopInfo) {
 		}
 		st.cells[c] = x.freshValue(st, "lv_"+c.name, c.ty)
 	}
-	if st.errSeen != nil || true {
-		// the ghost flag is unknown at an arbitrary iteration; invariants may constrain it
-		st.errSeen = x.fresh("errseen", SBool)
-	}
+	// the ghost flag is unknown at an arbitrary iteration; invariants may constrain it
+	st.errSeen = x.fresh("errseen", SBool)
 	if li.rangeIter != nil {
 		if it, ok := fr.regs[li.rangeIter].(IterV); ok {
 			if it.MapT != nil {
@@ -710,26 +714,16 @@ func (x *Exec) havocLoop(st *State, fr *Frame, li *loopInfo) {
 			}
 		}
 	}
-	if len(li.heapKeys) > 0 || li.allocates {
-		before := st.alloc
-		if li.allocates {
-			st.alloc = x.fresh("alloc", SInt)
-			st.assume(Le(before, st.alloc))
+	for _, k := range li.heapKeys {
+		if _, ok := st.heap[k.key]; !ok {
+			x.heapByKey(st, k.key, k.sort)
 		}
-		for _, k := range li.heapKeys {
-			h, ok := st.heap[k.key]
-			if !ok {
-				h = x.heapByKey(st, k.key, k.sort)
-			}
-			nh := x.fresh(k.key, k.sort)
-			st.heap[k.key] = nh
-			_ = h
-			if et, ok := x.heapElem[k.key]; ok {
-				st.assume(x.heapRefsBounded(nh, et, st.alloc)...)
-			}
+		nh := x.fresh(k.key, k.sort)
+		st.heap[k.key] = nh
+		if et, ok := x.heapElem[k.key]; ok {
+			st.assume(x.heapRefsBounded(nh, et, st.alloc)...)
 		}
 	}
-	// re-assume typing facts for iterator cells is not needed
 }
 
 // loopEnv: names resolve to the current values of locals in scope.
